@@ -22,11 +22,13 @@ REPLAYS = os.path.join(os.environ['VERIF_EVIDENCE_DIR'], 'replays') if os.enviro
 KNOWN = os.path.join(ROOT, 'known_findings.json')
 
 
-class _Timeout(Exception):
+class _Timeout(BaseException):      # not an Exception: check code catching Exception must not swallow the time limit
     pass
 
 
 def _alarm(signum, frame):
+    # the timer repeats (see _worker): an exception raised inside a destructor is ignored by the interpreter, the
+    # next tick raises again
     raise _Timeout()
 
 
@@ -37,9 +39,12 @@ def _worker(args):
     mod = importlib.import_module(modname)
     t0 = time.time()
     signal.signal(signal.SIGALRM, _alarm)
-    signal.alarm(int(limit))
+    signal.setitimer(signal.ITIMER_REAL, float(limit), 5.0)
     try:
-        res = mod.run_config(cfg)
+        try:
+            res = mod.run_config(cfg)
+        finally:
+            signal.setitimer(signal.ITIMER_REAL, 0)     # first thing on the way out: no further ticks
         res.setdefault('inconclusive', [])
     except _Timeout:
         res = {'inconclusive': ['time limit %ds exceeded' % limit]}
@@ -48,7 +53,7 @@ def _worker(args):
     except (Exception, symex.Abort) as e:  # harness error: never a verdict
         res = {'inconclusive': ['harness error %s: %s\n%s' % (type(e).__name__, e, traceback.format_exc()[-1500:])]}
     finally:
-        signal.alarm(0)
+        signal.setitimer(signal.ITIMER_REAL, 0)
     st = symex.Stats.snapshot()
     res['cfg'] = cfg
     res['wall_s'] = round(time.time() - t0, 2)
